@@ -24,4 +24,8 @@ package py
 //@ func floatDivMod(a, b) (q, m, err)
 //@   ensures zero: b == fconst(0) ==> raisesExc(err, ZeroDivisionError)
 //@   ensures ok: !(b == fconst(0)) ==> err == nil
+//@   ensures sign: err == nil && isfinite(a) && isfinite(b) && isfinite(m) && !(m == fconst(0)) ==> (isnegf(m) <==> isnegf(b))
 
+
+//@ func (Float).M__abs__(a) (r, err)
+//@   ensures abs: err == nil && is(r, Float) && (isnan(a) || (r.(Float) == absf(a) && !isnegf(r.(Float))))
